@@ -3,6 +3,7 @@
 package validation
 
 import (
+	"slices"
 	"strings"
 
 	v1 "github.com/fatedier/frp/pkg/config/v1"
@@ -85,5 +86,41 @@ func verif_ValidateProxyConfigurerForServer(c v1.ProxyConfigurer, s *v1.ServerCo
 				verif.Ensures(!VerifInSubdomainSpace(v.CustomDomains[k], s.SubDomainHost), "tcpmux_domains_outside_subdomain_space")
 			}
 		}
+	}
+}
+
+// validateWebServerConfig (C18 "a configuration that is accepted means the same
+// everywhere": the dashboard / admin port): accepted only with a port in range -
+// with or without tls - and with tls only when both files are named.
+//
+//verif:contract ~/pkg/config/v1/validation.validateWebServerConfig
+//verif:props C18
+//verif:kinds post
+func verif_validateWebServerConfig(c *v1.WebServerConfig) {
+	err := validateWebServerConfig(c)
+	if err == nil {
+		verif.Ensures(0 <= c.Port && c.Port <= 65535, "accepted_only_with_a_port_in_range")
+		verif.Ensures(c.TLS == nil || (c.TLS.CertFile != "" && c.TLS.KeyFile != ""), "accepted_tls_names_both_files")
+	}
+}
+
+// validateProxyBaseConfigForClient: what is accepted has a name, a known
+// proxy-protocol version and bandwidth mode whatever else it declares (plugin
+// or not), a local port in range when it has no plugin, and a known health
+// check type.
+//
+//verif:contract ~/pkg/config/v1/validation.validateProxyBaseConfigForClient
+//verif:props C18
+//verif:kinds post
+func verif_validateProxyBaseConfigForClient(c *v1.ProxyBaseConfig) {
+	err := validateProxyBaseConfigForClient(c)
+	if err == nil {
+		v := c.Transport.ProxyProtocolVersion
+		verif.Ensures(c.Name != "", "accepted_has_a_name")
+		verif.Ensures(slices.Contains([]string{"", "v1", "v2"}, v), "accepted_has_a_known_proxy_protocol_version")
+		verif.Ensures(slices.Contains([]string{"client", "server"}, c.Transport.BandwidthLimitMode), "accepted_has_a_known_bandwidth_mode")
+		verif.Ensures(c.Plugin.Type != "" || (0 <= c.LocalPort && c.LocalPort <= 65535), "accepted_without_plugin_has_a_local_port_in_range")
+		h := c.HealthCheck.Type
+		verif.Ensures(slices.Contains([]string{"", "tcp", "http"}, h) && (h != "http" || c.HealthCheck.Path != ""), "accepted_has_a_known_health_check")
 	}
 }
